@@ -221,6 +221,17 @@ def classify(u, fn):
         # signature), but there is no model record for it, so the proofs about the deprecated API no longer check
         base.update(kind='legacy_unrecognised')
         return base
+    # a current-API function whose body the translator does not recognise but whose signature is that of an initialiser,
+    # getter or setter: it stays callable from the harness (so that a failing input can be exhibited on the real code), but
+    # there is no model record for it, so the theorems that enumerate the accessors no longer check
+    if name.startswith('Avtp_') and len(ps) >= 1 and base['ptypes'][0].strip().endswith('*'):
+        ints = all(u.tenv.width(t) for t in base['ptypes'][1:])
+        if rt == 'void' and len(ps) == 1:
+            base.update(kind='init_unrecognised'); return base
+        if rt == 'void' and len(ps) in (2, 3) and ints:
+            base.update(kind='setter_unrecognised'); return base
+        if u.tenv.width(rt) and len(ps) in (1, 2) and ints:
+            base.update(kind='getter_unrecognised'); return base
     base.update(kind='other')
     return base
 
